@@ -45,6 +45,21 @@ func runBubble(t *testing.T, sc *Scenario) (st *stats, err error) {
 	return st, err
 }
 
+// runCase is everything one scenario asks for: the bubble and, if the scenario
+// says so, the observation through a real Agent (outside the bubble: sockets).
+func runCase(t *testing.T, sc *Scenario) (*stats, error) {
+	st, err := runBubble(t, sc)
+	if err != nil || !sc.Agent {
+		return st, err
+	}
+	if sc.Seed == 0 {
+		// outside the bubble a clock-seeded generator is not replayable
+		st.label("agent-not-asked-global-seed-zero")
+		return st, nil
+	}
+	return st, sc.judgeAgent(st)
+}
+
 // ---------------------------------------------------------------------------
 // generators
 // ---------------------------------------------------------------------------
@@ -55,6 +70,7 @@ type genEnv struct {
 	hostile     bool
 	disableSync bool
 	base        int64
+	longLists   bool // option lists of up to 24 entries (the "shapes" part)
 }
 
 func genSeed(t *rapid.T, label string) int64 {
@@ -157,6 +173,16 @@ func fin(f float64) Dbl {
 var strPool = []string{"", "a", "b", "up", "DOWN", "é", "a b"}
 
 func genVal(t *rapid.T, env genEnv) Val {
+	return genValWith(t, env, func(v *Val) {
+		v.Repeat = genRepeat(t)
+		v.Seed = genSeed(t, "vseed")
+		v.TS = genTS(t, v.Repeat, env)
+	})
+}
+
+// genValWith draws kind, distribution and payload of one value; schedule
+// (repeat, seed, timestamp block) is left to the caller.
+func genValWith(t *rapid.T, env genEnv, schedule func(*Val)) Val {
 	type kd struct{ k, d string }
 	// (rapid favours the first few entries: the ones with most behaviour go first)
 	combos := []kd{
@@ -172,14 +198,15 @@ func genVal(t *rapid.T, env genEnv) Val {
 	}
 	c := rapid.SampledFrom(combos).Draw(t, "kind")
 	v := Val{Kind: c.k, Dist: c.d}
-	v.Repeat = genRepeat(t)
-	v.Seed = genSeed(t, "vseed")
-	v.TS = genTS(t, v.Repeat, env)
+	schedule(&v)
 	isList := c.d == DRot || c.d == DRand
 	isRange := c.d == DRange || c.d == DDelta
 	nOpts := 0
 	if isList {
 		nOpts = rapid.IntRange(1, 5).Draw(t, "nopts")
+		if env.longLists && rapid.IntRange(0, 3).Draw(t, "nopts-long") == 0 {
+			nOpts = rapid.IntRange(6, 24).Draw(t, "nopts-many")
+		}
 	}
 	// initial `value` of a list: default, one of the options, or anything
 	initial := rapid.IntRange(0, 2).Draw(t, "list-initial")
@@ -411,7 +438,7 @@ func TestC20Random(t *testing.T) {
 	rec.RunRapid(t, func(rt *rapid.T) {
 		sc := genScenario(rt)
 		rec.Current(sc)
-		st, err := runBubble(t, sc)
+		st, err := runCase(t, sc)
 		rec.Case(sc, st.nontrivial(), st.labelList()...)
 		if err != nil {
 			rt.Fatalf("%s", rec.Fail(sc, classOf(err), "%v", err))
@@ -422,7 +449,7 @@ func TestC20Random(t *testing.T) {
 // classOf names the violated clause (the word before the first colon after
 // the observation point).
 func classOf(err error) string {
-	s := err.Error()
+	s := strings.TrimPrefix(err.Error(), "agent: ")
 	for _, c := range []string{"order", "repeat/order", "repeat", "step", "range", "list", "sync", "reproducible", "config", "panic"} {
 		for _, p := range []string{"queue: " + c + ":", "wire: " + c + ":", c + ":"} {
 			if len(s) >= len(p) && s[:len(p)] == p {
@@ -457,7 +484,7 @@ func TestReplay(t *testing.T) {
 		var sc Scenario
 		if err := json.Unmarshal(rf.Scenario, &sc); err != nil {
 			msg = "bad scenario: " + err.Error()
-		} else if _, rerr := runBubble(t, &sc); rerr != nil {
+		} else if _, rerr := runCase(t, &sc); rerr != nil {
 			msg = rerr.Error()
 		}
 	}
